@@ -115,6 +115,8 @@ class Evaluator:
         n = 0
         for c in conds:
             c = T.unroot(c) if not T.is_bool(c) else c
+            if T.is_bool(c):
+                c = T.simplify_under(c, self.pc)
             if T.is_bool(c) and c != T.TRUE:
                 self.pc.append(c)
                 n += 1
@@ -598,6 +600,20 @@ class Evaluator:
         if src == 'ForLoopDesugar':
             return self.ev_forloop(e, env, body, depth)
         scrut = self.ev(e['scrut'], env, body, depth)
+        conds = [self.bool_pattern(a['pat'], scrut) for a in e['arms']]
+        if all(c is not None for c in conds) and all(a.get('guard') is None for a in e['arms']):
+            # a match over boolean literals / tuples of them is a decision list: nested conditionals
+            vals = []
+            seen_not = []
+            for a, c in zip(e['arms'], conds):
+                pcs = [T.tnot(x) for x in seen_not] + [c]
+                vals.append(self.with_pc(pcs, lambda a=a: self.ev(a['body'], dict(env), body, depth)))
+                seen_not.append(c)
+            res = vals[-1]
+            for i in range(len(conds) - 2, -1, -1):
+                c = T.simplify_under(conds[i], [T.tnot(x) for x in conds[:i]])
+                res = self.join(c, vals[i], res)
+            return res
         arms = []
         for a in e['arms']:
             env_a = dict(env)
@@ -616,6 +632,28 @@ class Evaluator:
         if any(T.is_lin(a[2]) for a in arms):
             return T.root(m)
         return m
+
+    def bool_pattern(self, p, scrut):
+        """condition under which a pattern made of bool literals / wildcards / tuples matches, or None"""
+        k = p.get('k')
+        if k in ('Wild',):
+            return T.TRUE
+        if k == 'Bind' and 'sub' not in p:
+            return None
+        if k == 'Lit' and p['lit'].get('lk') == 'Bool':
+            b = T.unroot(scrut)
+            if not T.is_bool(b):
+                return None
+            return b if p['lit'].get('v') else T.tnot(b)
+        if k == 'Tuple':
+            cs = []
+            for i, q in enumerate(p['ps']):
+                c = self.bool_pattern(q, T.proj(scrut, i))
+                if c is None:
+                    return None
+                cs.append(c)
+            return T.tand(*cs)
+        return None
 
     def ev_forloop(self, e, env, body, depth):
         # match IntoIterator::into_iter(x) { mut iter => loop { match next(&mut iter) {None=>break, Some(pat)=>body} } }
@@ -978,6 +1016,8 @@ class Evaluator:
         # --- numeric primitives
         if name == 'saturating_sub' and len(args) == 2 and (path.startswith('core::num') or path.startswith('std::num') or '::num::' in path):
             return T.pos(T.sub(args[0], args[1]))
+        if name == 'checked_sub' and len(args) == 2 and (path.startswith('core::num') or path.startswith('std::num') or '::num::' in path):
+            return ('csub', T.as_lin(args[0]), T.as_lin(args[1]))
         if path in ('std::cmp::min', 'std::cmp::Ord::min') and len(args) == 2:
             return T.tmin(args[0], args[1])
         if path in ('std::cmp::max', 'std::cmp::Ord::max') and len(args) == 2:
@@ -1118,6 +1158,8 @@ class Evaluator:
             return o[1]
         if o == ('none',):
             return d
+        if isinstance(o, tuple) and o and o[0] == 'csub' and T.as_lin(d) == T.const(0):
+            return T.pos(T.sub(o[1], o[2]))     # a.checked_sub(b).unwrap_or(0) is a saturating subtraction
         return T.root(('optor', o, d))
 
     def find_impl_method(self, trait, self_ty, arg_ty, name):
